@@ -23,7 +23,8 @@ class AsyncBankH(MethodHarness):
         if not hasattr(self, "_alpha"):
             c = self.cfg
             D, W, G = c["depth"], c["width"], c.get("gran")
-            wopts = write_options(self.port["write0"].in_layout, D, W, G)
+            wopts = write_options(self.port["write0"].in_layout, D, W, G, wdata=c.get("wdata"),
+                                  idle_payload=c.get("idle_payload", False))
             ch = {}
             for i in range(c["rp"]):
                 ch[f"read{i}"] = [(0, 0)] + [(1, a) for a in range(D)]
@@ -70,13 +71,22 @@ def jobs(tier):
                  {"depth": 2, "width": 2, "rp": 1, "wp": 1}, {"depth": 2, "width": 2, "gran": 1, "rp": 1, "wp": 1},
                  {"depth": 2, "width": 1, "rp": 2, "wp": 1}, {"depth": 2, "width": 1, "rp": 1, "wp": 2},
                  {"depth": 3, "width": 1, "rp": 2, "wp": 2}]
-        big = [{"depth": 2, "width": 2, "gran": 1, "rp": 2, "wp": 2}]
+        # a single mask lane (granularity == width), and callers that keep driving their last argument while idle
+        small += [{"depth": 2, "width": 1, "gran": 1, "rp": 1, "wp": 1}, {"depth": 2, "width": 2, "gran": 2, "rp": 1, "wp": 1},
+                  {"depth": 2, "width": 1, "rp": 1, "wp": 2, "idle_payload": True},
+                  {"depth": 2, "width": 1, "gran": 1, "rp": 1, "wp": 2, "idle_payload": True}]
+        big = [{"depth": 2, "width": 2, "gran": 1, "rp": 2, "wp": 2},
+               {"depth": 2, "width": 2, "gran": 1, "rp": 1, "wp": 2, "idle_payload": True, "wdata": [0, 3]}]
     else:
         small = [{"depth": d, "width": w, "rp": r, "wp": p} for d in (2, 3) for w in (1, 2) for r in (1, 2) for p in (1, 2)]
         small += [{"depth": 2, "width": 2, "gran": 1, "rp": 1, "wp": 1}, {"depth": 4, "width": 1, "rp": 1, "wp": 1}]
         big = [{"depth": 2, "width": 2, "gran": 1, "rp": 2, "wp": 2}, {"depth": 3, "width": 2, "gran": 1, "rp": 2, "wp": 2},
                {"depth": 4, "width": 2, "gran": 1, "rp": 1, "wp": 2}, {"depth": 2, "width": 4, "gran": 2, "rp": 1, "wp": 2},
-               {"depth": 4, "width": 1, "rp": 3, "wp": 3}]
+               {"depth": 4, "width": 1, "rp": 3, "wp": 3},
+               {"depth": 2, "width": 2, "gran": 1, "rp": 1, "wp": 2, "idle_payload": True},
+               {"depth": 3, "width": 4, "gran": 2, "rp": 1, "wp": 2, "idle_payload": True, "wdata": [0, 15, 6]}]
+        small += [{"depth": 2, "width": w, "gran": w, "rp": 1, "wp": p} for w in (1, 2, 3) for p in (1, 2)]
+        small += [{"depth": 2, "width": 1, "gran": 1, "rp": 1, "wp": 2, "idle_payload": True}]
     return [E1("checks.c22", "AsyncBankH", c) for c in small], [E1("checks.c22", "AsyncBankH", c) for c in big]
 
 
